@@ -13,11 +13,13 @@ Independent sentinel on the REAL code (no use of the translator or of Lean):
      differences in t);
  (c) Einstein's equations G + Lambda g = kappa T: curvature of the module's
      symbolic 4-metric from exact sympy first/second derivatives evaluated at
-     the point, against the module's matter functions (relative 1e-5: decimal
-     coefficients such as 0.0833333 limit the accuracy to ~4e-7).  Since the
-     extension these equations are also THEOREMS (Props/C17Einstein.lean) for
-     every module; the sentinel stays as the independent check on the real code
-     (and is the only check of the rounded Non_diagonal coefficient's size);
+     the point, against the module's matter functions, to float64 round-off:
+     |difference| <= 1e-12 of the larger side + 3e-14 of the sum of |terms| added
+     up (measured worst case over 12 seeds x 25 points x 9 modules: 7e-16 of the
+     terms, i.e. a margin of 40; the former 1e-5 band existed only because
+     Non_diagonal used 0.0833333 for 1/12, fixed in /repo commit 7527532).
+     These equations are also THEOREMS (Props/C17Einstein.lean) for every
+     module; the sentinel stays as the independent check on the real code;
  (d) the Schwarzschild Kretschmann closed form vs the metric (also a theorem now);
  (e) the hypergeometric antiderivative assumed by the Szekeres zz theorem.
 """
@@ -51,9 +53,9 @@ THEOREMS = ["AurelVerif.C17." + t for t in (
 # Spec/MetricJet.lean).  Heavy (~8 min of CPU from scratch) but compiled once by `lake build` and then cached.
 MODULE_EINSTEIN = "AurelVerif.Props.C17Einstein"
 THEOREMS_EINSTEIN = ["AurelVerif.C17." + t for t in (
-    "einstein_EdS", "einstein_LCDM", "einstein_Conformally_flat", "einstein_Schwarzschild", "Schwarzschild_domain_iff",
+    "einstein_EdS", "einstein_LCDM", "einstein_Conformally_flat", "einstein_Schwarzschild", "null_expansion_Schwarzschild", "Schwarzschild_domain_iff",
     "einstein_Harvey_Tsoubelis", "einstein_Collins_Stewart", "einstein_Rosquist_Jantzen",
-    "einstein_Non_diagonal_exact_coefficient", "Non_diagonal_domain_iff", "einstein_Non_diagonal_as_written_is_false",
+    "einstein_Non_diagonal", "Non_diagonal_domain_iff",
     "einstein_Szekeres_partial", "einstein_Szekeres_pointwise", "Szekeres_domain_iff")]
 # fallback attribution when Props/C17Einstein does not build: property theorem -> (lemma module, lemmas it is made of)
 EINSTEIN_PARTS = {
@@ -62,15 +64,13 @@ EINSTEIN_PARTS = {
     "einstein_Conformally_flat": ("ConfFlat", ("Conformally_flat_isJetField", "Conformally_flat_einstein")),
     "einstein_Schwarzschild": ("Schw", ("Schwarzschild_isJetField", "Schwarzschild_einstein", "Schwarzschild_ricci_flat",
                                         "Schwarzschild_kretschmann")),
+    "null_expansion_Schwarzschild": ("Schw", ("Schwarzschild_null_expansion",)),
     "Schwarzschild_domain_iff": ("Schw", ("Schwarzschild_facts",)),
     "einstein_Harvey_Tsoubelis": ("HT", ("Harvey_Tsoubelis_isJetField", "Harvey_Tsoubelis_einstein", "Harvey_Tsoubelis_ricci_flat")),
     "einstein_Collins_Stewart": ("CS", ("Collins_Stewart_isJetField", "Collins_Stewart_einstein")),
     "einstein_Rosquist_Jantzen": ("RJ", ("Rosquist_Jantzen_isJetField", "Rosquist_Jantzen_einstein")),
-    "einstein_Non_diagonal_exact_coefficient": ("ND", ("Non_diagonal_isJetField", "Non_diagonal_einstein_defect",
-                                                       "Non_diagonal_einstein_exact_coefficient")),
+    "einstein_Non_diagonal": ("ND", ("Non_diagonal_isJetField", "Non_diagonal_einstein")),
     "Non_diagonal_domain_iff": ("ND", ("Non_diagonal_witness_domain",)),
-    "einstein_Non_diagonal_as_written_is_false": ("ND", ("Non_diagonal_coefficient_is_rounded", "Non_diagonal_witness_domain",
-                                                         "Non_diagonal_einstein_exact_is_false")),
     "einstein_Szekeres_partial": ("Szek", ("Szekeres_isJetField", "Szekeres_einstein")),
     "einstein_Szekeres_pointwise": ("Szek", ("Szekeres_gdown4_closed", "Szekeres_einstein")),
     "Szekeres_domain_iff": ("Szek", ("Szekeres_einstein",)),
@@ -409,9 +409,9 @@ def matter(m, p):
 
 
 def oracle_einstein(m, p):
-    """(c) G_ab + Lambda g_ab = kappa T_ab at p; list of failing components.  Tolerance: 1e-5 of
-    the larger side (decimal coefficients like 0.0833333 for 1/12 limit the code to ~4e-7) plus
-    1e-12 of the sum of |terms| added up in the left-hand side (the module's constants are float64)."""
+    """(c) G_ab + Lambda g_ab = kappa T_ab at p; list of failing components.  Tolerance (float64 round-off of
+    the module's matter functions; the left-hand side is evaluated with 40 digits): 1e-12 of the larger side plus
+    3e-14 of the sum of |terms| added up in the left-hand side (measured worst case 7e-16 of that sum)."""
     g, dg, ddg = Sym.get(m).jets(p)
     G, _, noise = curvature(g, dg, ddg)
     kT, Lam = matter(m, p)
@@ -420,7 +420,7 @@ def oracle_einstein(m, p):
         for b in range(a, 4):
             lhs = float(G[a][b] + Lam * g[a][b])
             inter = noise[a][b] + abs(float(Lam * g[a][b]))
-            tol = 1e-5 * max(abs(lhs), abs(kT[a, b])) + 1e-12 * inter
+            tol = 1e-12 * max(abs(lhs), abs(kT[a, b])) + 3e-14 * inter
             if not abs(lhs - kT[a, b]) <= tol:
                 out.append({"oracle": "einstein", "module": m, "component": [a, b], "point": list(p),
                             "expected": lhs, "observed": float(kT[a, b]),
@@ -553,7 +553,7 @@ def oracle_kretschmann(p):
     kr = float(curvature(g, dg, ddg)[1])
     t, x, y, z = grid_point(p)
     got = float(np.asarray(M.Kretschmann(t, x, y, z)).reshape(-1)[0])
-    if rel_err(got, kr) > 1e-7:
+    if rel_err(got, kr) > 1e-12:
         return [{"oracle": "kretschmann", "module": "Schwarzschild_isotropic", "component": [], "point": list(p),
                  "expected": kr, "observed": got,
                  "what": "Schwarzschild Kretschmann closed form %.12g, R_abcd R^abcd of the metric %.12g" % (got, kr)}]
@@ -645,12 +645,10 @@ def prove_einstein(ctx):
     """Build Props/C17Einstein and audit axioms.  If it does not build (e.g. the generated matter of ONE module
     changed), build the per-module lemma files separately and attribute: a property theorem whose own lemma module
     still builds, with standard axioms for the lemmas it is assembled from, stands; the others are broken."""
-    if ctx.prove(MODULE_EINSTEIN, THEOREMS_EINSTEIN, timeout=3000):
-        return True
-    first_errs = dict(ctx.build_errors)
-    if not any(f != "AurelVerif/Props/C17Einstein.lean" for f in first_errs):
-        return False                      # the error is in the Props file itself: keep the verdicts of ctx.prove
-    ctx.obligs = [o for o in ctx.obligs if o["name"] not in THEOREMS_EINSTEIN]
+    ok, first_errs, _ = ctx.lean_build([MODULE_EINSTEIN], timeout=3000)
+    if ok or not any(f != "AurelVerif/Props/C17Einstein.lean" for f in first_errs):
+        # builds (the second build inside ctx.prove is a no-op), or the error is in the Props file itself
+        return ctx.prove(MODULE_EINSTEIN, THEOREMS_EINSTEIN, timeout=3000)
     status = {}
     for fam in sorted({v[0] for v in EINSTEIN_PARTS.values()}):
         mod = "AurelVerif.Lemmas.C17Ein" + fam
@@ -737,7 +735,6 @@ def run(ctx):
                     "numpy/sympy/scipy elementary functions denote the Mathlib functions of the same name; hyp2f1 opaque"]
     ctx.assumptions += ["Szekeres zz component: integrated_part is an antiderivative of part_to_integrate (hypothesis of the theorem; checked numerically with mpmath), Z != 0",
                         "Einstein's equations for Szekeres: the identification of the 2-jet with the derivatives of the metric rests on the same hypergeometric-antiderivative hypothesis (for all tau > 0); the field equations at a point are unconditional",
-                        "Non_diagonal: Einstein's equations are proven for the pressure coefficient 1/12 and DISPROVEN for the module's 0.0833333 (relative violation 4e-7, below the sentinel's 1e-5 band)",
                         "spacetime curvature is defined algebraically from the 2-jet of the metric (Spec/Jet4.lean, textbook formulas); that the jet entries are the partial derivatives of the generated metric is proven with Mathlib's HasDerivAt, coordinate by coordinate (Spec/MetricJet.lean)"]
     info = None
     try:
@@ -798,6 +795,6 @@ def replay(ctx, obj):
 MANIFEST = {
     "category": "proof",
     "technique": "Lean 4 / Mathlib theorems (HasDerivAt, real powers, sinh/cosh/exp/log) about real-valued expressions regenerated on every run from the ASTs of solutions/*.py; Einstein tensor defined algebraically from the 2-jet of a metric over any field (Spec/Jet4.lean) and evaluated per metric family by staged, Lean-proven closed-form tables (Christoffel, dGamma, Ricci, Einstein, Riemann/Kretschmann), the jets tied to the generated metrics by HasDerivAt; translation validated against the real functions; independent sympy/mpmath sentinel on the real code",
-    "text": "Partial proof. Proven for all t > 0 and all positions (about definitions regenerated from the source each run): (T1) the numpy and sympy branches of every `analytical=` function (metric, lapse, a(t), A, Z_terms) denote the same function, for all 8 modules that have the flag; (T2) Kdown3 is the time-rate of gammadown3, d_t gamma_ij = -2 alpha K_ij, all nine components, for EdS and LCDM (including H = a'/a from the modules' own a(t), Hprop(t) and symbolically related constants), Conformally_flat, Schwarzschild_isotropic (static), Harvey_Tsoubelis, Collins_Stewart, Non_diagonal, Rosquist_Jantzen, Szekeres (eight components unconditionally; zz under the explicit hypothesis that integrated_part is an antiderivative of part_to_integrate, and Z != 0), ICPertFLRW on the EdS background for arbitrary second derivatives of Rc plus its unperturbed limit; lapse and zero shift read off each module's own gdown4; (T3) EINSTEIN'S EQUATIONS G_ab + Lambda g_ab = kappa T_ab, all ten components at every point of the domain, with G the textbook Einstein tensor computed from a 2-jet of the metric whose entries are PROVEN to be the first and second partial derivatives (Mathlib HasDerivAt) of the module's own generated metric: EdS, LCDM (perfect fluid at rest with the module's rho, press, Lambda), Conformally_flat (Tdown4), Schwarzschild_isotropic (vacuum, r != 0, 2r != M; plus: the shipped Kretschmann closed form IS the Kretschmann scalar of the metric), Harvey_Tsoubelis (vacuum), Collins_Stewart (rho, press), Rosquist_Jantzen (Tdown4; the module constant k != 0 is proven), Szekeres (rho, press = 0, LCDM's Lambda: the equations at each point unconditionally, the derivative property of the jet under the hypergeometric-antiderivative hypothesis, shown satisfiable), Non_diagonal (Tdown4): proven with the pressure coefficient 1/12 and DISPROVEN as written - the module's rounded decimal 0.0833333 makes the xx, xy, xz, yy, zz equations false (theorem with witness point (1,0,0,5/2)), the tt, ti and yz equations hold as written; also the Friedmann and continuity equations of EdS/LCDM.",
-    "note": "NOT covered by a theorem; numerical sentinel only (sympy derivatives of the module's symbolic 4-metric evaluated with mpmath, textbook curvature, relative tolerance 1e-5; a band failure is reported only if reproduced at a second point set): null_ray_exp_out; the hypergeometric antiderivative assumed for Szekeres (zz rate and the jet of its metric); ICPertFLRW beyond the EdS rate and the background limit (first-order constraints, LCDM growth index). KNOWN DEFECT proven, not hidden: Non_diagonal.Tdown4 uses 0.0833333 for 1/12 (einstein_Non_diagonal_as_written_is_false); the sentinel's 1e-5 band tolerates it. The sentinel keeps checking all Einstein equations and the Kretschmann scalar on the real code independently of the theorems. Trusted: Lean kernel + propext/Classical.choice/Quot.sound; the translator (validated at random points to 1e-12 on all 628 generated definitions); reals in place of float64 and symbolic module constants (t_today = 2/(3 H0), ...); Python `/` and safe_division both modelled by Lean `/` with the non-vanishing of divisors stated as hypotheses (t > 0, r != 0, Z != 0, ...); the algebraic definition of curvature from a 2-jet (Spec/Jet4.lean: Christoffel symbols, derivative of the inverse metric, product rule, Riemann, Ricci, Einstein; citations there). The tables in Lemmas/C17Jet*.lean were written by the developer tool tools/py2lean/c17_jetgen.py (sympy) and carry no authority: each is proven equal to the Spec definition by Lean.",
+    "text": "Partial proof. Proven for all t > 0 and all positions (about definitions regenerated from the source each run): (T1) the numpy and sympy branches of every `analytical=` function (metric, lapse, a(t), A, Z_terms) denote the same function, for all 8 modules that have the flag; (T2) Kdown3 is the time-rate of gammadown3, d_t gamma_ij = -2 alpha K_ij, all nine components, for EdS and LCDM (including H = a'/a from the modules' own a(t), Hprop(t) and symbolically related constants), Conformally_flat, Schwarzschild_isotropic (static), Harvey_Tsoubelis, Collins_Stewart, Non_diagonal, Rosquist_Jantzen, Szekeres (eight components unconditionally; zz under the explicit hypothesis that integrated_part is an antiderivative of part_to_integrate, and Z != 0), ICPertFLRW on the EdS background for arbitrary second derivatives of Rc plus its unperturbed limit; lapse and zero shift read off each module's own gdown4; (T3) EINSTEIN'S EQUATIONS G_ab + Lambda g_ab = kappa T_ab, all ten components at every point of the domain, with G the textbook Einstein tensor computed from a 2-jet of the metric whose entries are PROVEN to be the first and second partial derivatives (Mathlib HasDerivAt) of the module's own generated metric: EdS, LCDM (perfect fluid at rest with the module's rho, press, Lambda), Conformally_flat (Tdown4), Schwarzschild_isotropic (vacuum, r != 0, 2r != M; plus: the shipped Kretschmann closed form IS the Kretschmann scalar of the metric, and null_ray_exp_out IS the divergence of the unit outward normal of the coordinate spheres), Harvey_Tsoubelis (vacuum), Collins_Stewart (rho, press), Rosquist_Jantzen (Tdown4; the module constant k != 0 is proven), Szekeres (rho, press = 0, LCDM's Lambda: the equations at each point unconditionally, the derivative property of the jet under the hypergeometric-antiderivative hypothesis, shown satisfiable), Non_diagonal (Tdown4 exactly as written, t > 0, (A t)^2 != 2; its pressure coefficient is 1/12 since /repo commit 7527532 - with the earlier decimal 0.0833333 the statement was false and had been proven false); also the Friedmann and continuity equations of EdS/LCDM.",
+    "note": "NOT covered by a theorem; numerical sentinel only (sympy derivatives of the module's symbolic 4-metric evaluated with mpmath, textbook curvature, agreement to float64 round-off: 1e-12 of the larger side + 3e-14 of the sum of |terms|, Kretschmann 1e-12; a band failure is reported only if reproduced at a second point set): the hypergeometric antiderivative assumed for Szekeres (zz rate and the jet of its metric); ICPertFLRW beyond the EdS rate and the background limit (first-order constraints, LCDM growth index). The sentinel keeps checking all Einstein equations and the Kretschmann scalar on the real code independently of the theorems. Trusted: Lean kernel + propext/Classical.choice/Quot.sound; the translator (validated at random points to 1e-12 on all 628 generated definitions); reals in place of float64 and symbolic module constants (t_today = 2/(3 H0), ...); Python `/` and safe_division both modelled by Lean `/` with the non-vanishing of divisors stated as hypotheses (t > 0, r != 0, Z != 0, ...); the algebraic definition of curvature from a 2-jet (Spec/Jet4.lean: Christoffel symbols, derivative of the inverse metric, product rule, Riemann, Ricci, Einstein; citations there). The tables in Lemmas/C17Jet*.lean were written by the developer tool tools/py2lean/c17_jetgen.py (sympy) and carry no authority: each is proven equal to the Spec definition by Lean.",
 }
